@@ -144,6 +144,7 @@ type Exec struct {
 	inlineDepth int
 	ghostExec bool
 	bodyHash string
+	quantDepth int
 	exitAfterHooks bool
 	boxed map[types.Object]bool
 	selHasDone *bool
@@ -186,6 +187,7 @@ type State struct {
 	bound  map[string]*Val // spec-bound names (params by contract name, quantifier vars)
 	path   []string
 	dead   bool
+	groups map[string][]*groupDelta
 	specDef map[string]*Term // non-nil while translating a spec function body: heaps become parameters
 }
 
@@ -203,6 +205,7 @@ func (s *State) clone() *State {
 		path:   append([]string(nil), s.path...),
 		dead:   s.dead,
 		specDef: s.specDef,
+		groups: s.groups,
 	}
 	for k, v := range s.vars {
 		n.vars[k] = v
@@ -543,6 +546,9 @@ func (ex *Exec) wfSlice(st *State, s *Term) *Term {
 // wf assumes the type invariant of a value of static type t.
 func (ex *Exec) wf(st *State, v *Val) {
 	if v == nil || v.Term == nil || v.T == nil {
+		return
+	}
+	if ex.quantDepth > 0 {
 		return
 	}
 	switch u := v.T.Underlying().(type) {
